@@ -73,6 +73,12 @@ def _dom_frames(tier, seed):
     hdr = dict(ctype1="RA---TAN", ctype2="DEC--TAN", crpix1=50.0, crpix2=60.0, crval1=150.0, crval2=2.0, cd1_1=-7e-5, cd1_2=1e-6,
                cd2_1=2e-6, cd2_2=7e-5, cunit1="deg", cunit2="deg", naxis1=100, naxis2=120)
     w = wcsutil.WCS(hdr)
+    sip = dict(hdr, ctype1="RA---TAN-SIP", ctype2="DEC--TAN-SIP", a_order=2, b_order=2, ap_order=2, bp_order=2,
+               a_2_0=1e-6, a_1_1=-2e-6, a_0_2=3e-7, b_2_0=-1e-6, b_1_1=5e-7, b_0_2=2e-6,
+               ap_2_0=-1e-6, ap_1_1=2e-6, ap_0_2=-3e-7, bp_2_0=1e-6, bp_1_1=-5e-7, bp_0_2=-2e-6)
+    tpv = dict(hdr, ctype1="RA---TPV", ctype2="DEC--TPV", pv1_0=1e-5, pv1_1=1.0005, pv1_2=1e-4, pv1_4=2e-3, pv1_5=-1e-3, pv1_6=5e-4,
+               pv2_0=-1e-5, pv2_1=0.9995, pv2_2=-1e-4, pv2_4=-2e-3, pv2_5=1e-3, pv2_6=-5e-4)
+    wmodels = [("TAN-SIP", wcsutil.WCS(sip)), ("TPV", wcsutil.WCS(tpv))]
     for tag, ra in _variants(np, ra0):
         for tag2, dec in list(_variants(np, dec0))[:(6 if tier != "quick" else 3)]:
             t = "%s/%s" % (tag, tag2)
@@ -96,6 +102,16 @@ def _dom_frames(tier, seed):
             add("htm.bincount scale " + t, lambda a, b: h.bincount(0.01, 1.0, 3, a, b, a + 0.01, b, scale=np.abs(b) + 1.0), ra, dec)
             add("wcs.image2sky " + t, lambda a, b: w.image2sky(a, b + 100), ra, dec)
             add("wcs.sky2image " + t, lambda a, b: w.sky2image(a * 0 + 150.001, b * 0 + 2.001), ra, dec)
+            # the public building blocks of the transforms, for every distortion model: positions handed in directly
+            for wt, ww in wmodels:
+                add("wcs[%s].image2sky %s" % (wt, t), lambda a, b, ww=ww: ww.image2sky(a, b), ra, dec)
+                add("wcs[%s].get_jacobian %s" % (wt, t), lambda a, b, ww=ww: ww.get_jacobian(a, b), ra, dec)
+                for inv in (False, True):
+                    add("wcs[%s].Distort inverse=%s %s" % (wt, inv, t), lambda a, b, ww=ww, inv=inv: ww.Distort(a, b, inverse=inv), ra, dec)
+                    add("wcs[%s].ApplyCDMatrix inverse=%s %s" % (wt, inv, t), lambda a, b, ww=ww, inv=inv: ww.ApplyCDMatrix(a, b, inverse=inv), ra, dec)
+                add("wcs[%s].image2sph %s" % (wt, t), lambda a, b, ww=ww: ww.image2sph(a * 1e-3, b * 1e-3), ra, dec)
+                add("wcs[%s].sph2image %s" % (wt, t), lambda a, b, ww=ww: ww.sph2image(a, np.abs(b) * 0 + 89.5), ra, dec)
+                add("wcs[%s].Rotate %s" % (wt, t), lambda a, b, ww=ww: ww.Rotate(np.deg2rad(a), np.deg2rad(b)), ra, dec)
         add("coords.shiftlon " + tag, lambda a: co.shiftlon(a, 90.0), ra)
         # unit vectors handed in by the caller, one component a rounding error outside [-1, 1] (as a normalisation can leave it)
         vx = np.array([0.0, 1e-9, 0.6, 0.0, 0.0])
